@@ -152,9 +152,9 @@ PROPS["C14"] = {
 }
 
 PROPS["C11"] = {
-    "components": [Sched("cfg", 4000, 150000), Seq("consumers", 400, 20000, label="diag", crash_is_violation=True), RaceRun()],
+    "components": [Sched("cfg", 4000, 150000), Sched("diag", 1500, 60000), Seq("consumers", 400, 20000, label="diag", crash_is_violation=True), RaceRun()],
     "generated": ["lockfacts"],
-    "rule": "cfg: one Execute (success / failure / context-error outcome, live or cancelled caller context, closed or open circuit) races one SetConfigThreadSafe changing exactly one setting (run limit, timeout, fallback limit, ForceOpen, ForcedClosed, Disabled, Fallback.Disabled, IgnoreInterrupts; 23 old->new pairs); the observed outcome must equal the outcome under the old or under the new configuration; distinct by (configuration, schedule)",
+    "rule": "cfg: one Execute (success / failure / context-error outcome, live or cancelled caller context, closed or open circuit) races one SetConfigThreadSafe changing exactly one setting (run limit, timeout, fallback limit, ForceOpen, ForcedClosed, Disabled, Fallback.Disabled, IgnoreInterrupts; 23 old->new pairs); the observed outcome must equal the outcome under the old or under the new configuration; distinct by (configuration, schedule). diag (schedules): calls of every outcome kind on a circuit whose collectors and interrupt classifier use Config/IsOpen/Name/gauges from inside their callbacks, racing SetConfigThreadSafe / Var / OpenCircuit+CloseCircuit; monitored: no deadlock. diag (consumers suite): diagnostics after partial SetConfigThreadSafe. racerun: control plane + diagnostics vs traffic under the Go race detector.",
     "trusted_base": TB_COMMON + TB_SCHED,
     "assumptions": ["partial by nature: the Go memory model, fairness and network-facing diagnostics are outside the model"],
 }
